@@ -476,6 +476,22 @@ impl<'a> Model<'a> {
                 }
                 Ok(0)
             }
+            Conduit::GenAgain => {
+                for (arg, done, mark) in [(a, 10, 78), (a.wrapping_add(1), 11, 79)] {
+                    match self.invoke(func, arg, line, c.conduit) {
+                        Ok(_) => self.out.markers.push(mark),
+                        Err(Abrupt::Throw(t)) => {
+                            // caught by the helper; the generator is finished from then on
+                            self.out.caught.push((0, t.thrown.class()));
+                            self.out.caught_runtime.push(matches!(t.thrown, Thrown::Runtime(_)));
+                            self.out.sig.push("generator-pulled-again-after-failure".into());
+                            return Ok(done);
+                        }
+                        Err(other) => return Err(other),
+                    }
+                }
+                Ok(2)
+            }
             Conduit::Chain(..) | Conduit::Native2(_) => {
                 self.invoke(func, a, line, c.conduit)?;
                 self.invoke(func, a.wrapping_add(1), line, c.conduit)?;
